@@ -386,27 +386,27 @@ CHECKS["C15"] = (
 NOT_YET = {}
 
 
-# additions made after the seeded waves 6-9 (DESIGN 9.6), appended to the level text
+# additions made after the seeded waves 6-10 (DESIGN 9.6), appended to the level text
 ADDED = {
     "C14": "Also (wave 9): derived priors renamed on the way and combined with their base prior again.",
-    "C13": "Also (wave 9): the lazily computed attributes of one result object read in every sequence of <= 3, then compared with the forward model.",
+    "C13": "Also (wave 9): the lazily computed attributes of one result object read in every sequence of <= 3, then compared with the forward model. Coordinates and metadata of the result's hologram after any reads / saves against an untouched copy; saving after reads.",
     "C01": "Also (wave 9): history operations that differ from one another in one theory option only (acceptance angle, aberration coefficients, quadrature order, solver tolerances, absorption of one cluster member).",
-    "C02": "Also: sizes on narrow resonances (committed table), size parameters that are multiples of pi, distance shells at whole numbers of half wavelengths and at kr = 1e5 each judged against its own largest field, one theory object reused along a sequence of calls that differ in one argument.",
+    "C02": "Also: sizes on narrow resonances (committed table), size parameters that are multiples of pi, distance shells at whole numbers of half wavelengths and at kr = 1e5 each judged against its own largest field, one theory object reused along a sequence of calls that differ in one argument. Size ladders (wave 10): five radii on one detector (ring, centred grid, one point, forward direction) through Mie, asymptotic Mie, a one-sphere cluster and MieLens, every ordered pair and the ladder up and down, each step against the same call alone in a forked interpreter.",
     "C03": "Also: C_ext, C_sca and g of an oblique dimer re-derived from the full amplitude matrix of calc_scat_matrix (48 x 64 directions).",
-    "C04": "Also: particles 61 and 401 length units deep, detectors given as directions only. One theory object through a scan of nearly equal particles (0.1-4 percent steps in radius, index, depth) in every unit, including units in which sizes are ~1e-6 and ~1e-9.",
+    "C04": "Also: particles 61 and 401 length units deep, detectors given as directions only. One theory object through a scan of nearly equal particles (0.1-4 percent steps in radius, index, depth) in every unit, including units in which sizes are ~1e-6 and ~1e-9. Eight (medium, wavelength) pairs one after the other in one interpreter, each against its reduced description.",
     "C05": "Also: the radial near-field option of the cluster solver.",
     "C06": "Also: the full product of the forms of wavelength, polarization and index (each labelled form in two channel orders), typed polarization arrays, layered spheres with labelled per-channel arrays. Channels through every sphere theory (Mie, MieLens, AberratedMieLens, Lens(Mie), Multisphere, collections) with wavelengths all different, all equal and equal in pairs.",
-    "C07": "Also: planes of a volume against single planes, a 131 x 130 detector against crops and point lists, crops of a 100 x 100 image under MieLens, subsets of subsets. Every sequence of <= 2 (thorough 3) detector constructions from the same argument objects (coordinate dictionary, spacing list, extra_dims).",
+    "C07": "Also: planes of a volume against single planes, a 131 x 130 detector against crops and point lists, crops of a 100 x 100 image under MieLens, subsets of subsets. Every sequence of <= 2 (thorough 3) detector constructions from the same argument objects (coordinate dictionary, spacing list, extra_dims). Clusters of different expansion order on shared detectors (ring, grid, corner points), every ordered pair.",
     "C08": "Also: nearly planar point lists through the lens wrapper, from_parameters of the lens theories.",
-    "C09": "Also: detectors 0.8 and 8 mm away for one-sphere clusters; rotation covariance exact up to the solver's discrete truncation states (agreeing pairs among six orientations). Every ordered pair (thorough: triples over six) of calculations on clusters that differ from one another in one respect only (absorption, index, radius, position, listing order), each against the same cluster computed first in an interpreter.",
+    "C09": "Also: detectors 0.8 and 8 mm away for one-sphere clusters; rotation covariance exact up to the solver's discrete truncation states (agreeing pairs among six orientations). Every ordered pair (thorough: triples over six) of calculations on clusters that differ from one another in one respect only (absorption, index, radius, position, listing order), each against the same cluster computed first in an interpreter. Axis-aligned dimers at several separations in the history alphabet.",
     "C10": "Also: equal-axes spheroids at size parameters 15 and 20 in tilted orientations. Orientation and detector angles a rounding error away from the ends of the principal range.",
-    "C11": "Also: reflected subtraction and numerically labelled dictionaries as wrappers.",
-    "C12": "Also: the pixels option on data that are a subset already, several constraints. One model object against four data sets (noise level, values, shape, pixel size, wavelength) in every sequence of <= 3.",
-    "C15": "Also: explicit None for flags whose default is not None.",
+    "C11": "Also: reflected subtraction and numerically labelled dictionaries as wrappers. Value-equal separate priors, each wrapped in an equal expression of its own.",
+    "C12": "Also: the pixels option on data that are a subset already, several constraints. One model object against four data sets (noise level, values, shape, pixel size, wavelength) in every sequence of <= 3. Every likelihood a second time right after the prior of another point.",
+    "C15": "Also: explicit None for flags whose default is not None.Also (wave 10): six objects of different written length saved under one file name in every sequence of <= 3 (4).",
     "C16": "Also: images named like one of their axes, typed and labelled polarization arrays.",
     "C17": "Also: nearly evenly spaced distance lists.",
     "C18": "Also: frames of mixed types, a zero background count under a dark frame. Every ordered pair of (tool, frame) operations over 8 tools x 5 frames of one recording in one interpreter (triples inside a tool), each step bit-identical to the same call in a pristine interpreter, inputs untouched.",
-    "C19": "Also: narrow integer / float angle types in degrees, quarter turns and their multiples. A RigidCluster whose pose containers and spheres are changed in place between reads: every sequence of <= 3 (thorough 4) changes over 8 kinds x 2 container types.",
+    "C19": "Also: narrow integer / float angle types in degrees, quarter turns and their multiples. A RigidCluster whose pose containers and spheres are changed in place between reads: every sequence of <= 3 (thorough 4) changes over 8 kinds x 2 container types. Composites moved step by step: every sequence of <= 3 (4) of two rotations, two translations, a read, an added member.",
     "C20": "Also: voxel grids beyond 2**16 points with every voxel against the analytic inequality, radii in single / half precision.",
 }
 for _pid, _txt in ADDED.items():
